@@ -122,6 +122,7 @@ type HarnessResult struct {
 	Steps         int64
 	ChoiceShapes  map[string]bool
 	Wall          time.Duration
+	CrossChecked  int
 	PathCapHit    bool
 	TimedOut      bool
 	candSeen      map[string]int
@@ -171,6 +172,7 @@ type State struct {
 	globalWrites []string
 	sharedWrites []string
 	frozenObjs []*Obj
+	second *Solver
 	nonFinite bool // a division by zero in the real reading was approximated by NaN
 	libFn map[*ssa.Function]bool
 	usedUF bool // the path used an uninterpreted function (its model need not replay natively)
@@ -557,6 +559,18 @@ func (st *State) obligation(c *Term, kind, label string) {
 	r := st.check(nc)
 	switch r {
 	case Unsat:
+		if st.second != nil {
+			// second opinion from an independent solver: disagreement or no answer makes the obligation inconclusive
+			r2 := st.second.Check(st.ts, st.pc, nc)
+			st.res.mu.Lock()
+			st.res.CrossChecked++
+			st.res.mu.Unlock()
+			if r2 != Unsat {
+				st.inconclusive(label + ": discharged by " + st.solver.kind + " but " + st.second.kind + " answers " + r2.String())
+				st.assume(c)
+				return
+			}
+		}
 		st.res.mu.Lock()
 		st.res.Discharged++
 		st.res.mu.Unlock()
@@ -630,13 +644,15 @@ func (st *State) runPath() (end pathEnd) {
 }
 
 func (e *Engine) newState(h *Harness, w *worker, res *HarnessResult, q *workQueue, prefix []uint64, tier int) *State {
-	st := &State{e: e, h: h, ts: w.ts, solver: w.solver, res: res, q: q, prefix: prefix, tier: tier,
+	st := &State{e: e, h: h, ts: w.ts, solver: w.solver, second: w.second, res: res, q: q, prefix: prefix, tier: tier,
 		pcSet: map[int]bool{}, choices: map[string]int64{}, globals: map[*ssa.Global]*Obj{}, pristine: w.pristine,
 		covers: map[string]bool{}, proven: map[int]bool{}, ufOcc: map[string][]*Term{}, fnInfos: w.fnInfos}
 	return st
 }
 
 type worker struct {
+	second   *Solver // thorough tier: an independent back end re-discharges every unsat obligation
+	stats2   SolverStats
 	paths    int
 	ts       *TermStore
 	solver   *Solver
@@ -699,6 +715,9 @@ func (e *Engine) RunHarness(h *Harness, tier int, jobs int, pinned map[string]In
 				}
 				if w == nil {
 					w = e.newWorker(h)
+					if alt := secondSolverFor(h, tier); alt != "" {
+						w.second = NewSolver(alt, h.timeoutMs, &w.stats2)
+					}
 				}
 				st := e.newState(h, w, res, q, p, tier)
 				st.concrete = pinned
@@ -710,6 +729,9 @@ func (e *Engine) RunHarness(h *Harness, tier int, jobs int, pinned map[string]In
 				// recycle the worker now and then: the term table and the solver's global definitions only grow
 				if len(w.ts.all) > 600000 || w.paths > 4000 || w.solver.dead {
 					w.solver.Close()
+					if w.second != nil {
+						w.second.Close()
+					}
 					res.mu.Lock()
 					res.Stats.Sat += w.stats.Sat
 					res.Stats.Unsat += w.stats.Unsat
@@ -722,6 +744,9 @@ func (e *Engine) RunHarness(h *Harness, tier int, jobs int, pinned map[string]In
 			}
 			if w != nil {
 				w.solver.Close()
+				if w.second != nil {
+					w.second.Close()
+				}
 				res.mu.Lock()
 				res.Stats.Sat += w.stats.Sat
 				res.Stats.Unsat += w.stats.Unsat
@@ -935,4 +960,20 @@ func (st *State) implied(c *Term) bool {
 		return true
 	}
 	return false
+}
+
+// secondSolverFor names the independent back end used to re-discharge unsat obligations in the
+// thorough tier (z3 4.8.12 <-> z3 5.1.0 for bit-vectors, reals and integers). FloatingPoint queries
+// are not re-discharged: the other FP back ends are 5-10x slower on them (DESIGN section 3).
+func secondSolverFor(h *Harness, tier int) string {
+	if tier == 0 || os.Getenv("VX_NO_CROSSCHECK") != "" {
+		return ""
+	}
+	switch h.solver {
+	case "z3":
+		return "z3-new"
+	case "z3-new":
+		return "z3"
+	}
+	return ""
 }
